@@ -430,6 +430,9 @@ func nameClass(n string) string {
 	if len(rs) == 0 {
 		return "empty"
 	}
+	if strings.ContainsAny(n, "`\",\\") {
+		return "struct-tag-breaking-character"
+	}
 	for _, r := range rs {
 		if r > 127 && !unicode.IsLetter(r) && !unicode.IsDigit(r) {
 			return "non-ascii-symbol"
@@ -606,11 +609,47 @@ func check(c Case) (o pbt.Outcome) {
 			o.Fail("C05|second-pass-error", "definition %s: the re-encoded document cannot be decoded/encoded again: %s\n  out: %s", in.Def, r.Err2, r.Out)
 			continue
 		}
+		if strings.Contains(shape, "tuple") || strings.Contains(closure(root, s), `"items":[`) {
+			o.Class("unspecified:idempotence-with-tuples")
+			continue
+		}
 		if canonical(r.Out) != canonical(r.Out2) {
 			o.Fail("C05|not-idempotent", "definition %s: encoding the re-decoded output does not reproduce it\n  out:  %s\n  out2: %s", in.Def, r.Out, r.Out2)
 		}
 	}
 	return
+}
+
+// closure is the JSON text of a schema and of every definition it references.
+func closure(root J, s J) string {
+	defs, _ := root["definitions"].(J)
+	seen := map[string]bool{}
+	var sb strings.Builder
+	var visit func(txt string)
+	visit = func(txt string) {
+		sb.WriteString(txt)
+		rest := txt
+		for {
+			i := strings.Index(rest, `"#/definitions/`)
+			if i < 0 {
+				break
+			}
+			rest = rest[i+len(`"#/definitions/`):]
+			j := strings.Index(rest, `"`)
+			if j < 0 {
+				break
+			}
+			name := rest[:j]
+			if !seen[name] {
+				seen[name] = true
+				if d, ok := defs[name].(J); ok {
+					visit(string(specgen.JSONBytes(d)))
+				}
+			}
+		}
+	}
+	visit(string(specgen.JSONBytes(s)))
+	return sb.String()
 }
 
 func shapeOf(s J) string {
